@@ -16,7 +16,7 @@ META = {
     "note": "Recursion guards proved; totality explored, not proved. The search DOES find crashes: unguarded recursions over "
             "self-referential generics / aliases / class graphs overflow the stack (process abort), exponential type checks hang. Five "
             "classes were repaired in /repo (comment inside index brackets e195d3f, remove_type a1a93c9, narrow_down_type c0eea94, "
-            "call-non-callable a0598d6, integer constant folding overflow); eleven remain open findings (findings/C12.json), identified "
+            "call-non-callable a0598d6, integer constant folding overflow d969a3a); eleven remain open findings (findings/C12.json), identified "
             "by the function in which the stack overflows / the time is spent, and the check fails on any crash with a new signature. "
             "Trusted: Coq kernel; the hand models (the type-check / sub-type model is validated by correspondence, the InferGuard and "
             "humanizer skeletons only by reading + constants/anchors regenerated from source); gdb for crash signatures; the search is "
